@@ -158,6 +158,35 @@ class Opaque:
         return f"Opaque({self.tag})"
 
 
+class MList(Sym):
+    """A mutable list cell: holds an immutable sequence value (python list copy | SSeq) and is mutated in place,
+    so aliases (a tuple component, an element of another list) observe `append` / `extend`."""
+
+    def __init__(self, seq):
+        self.seq = list(seq) if isinstance(seq, (list, tuple)) else seq
+
+
+class SAny(Opaque):
+    """A value of unknown type read from the environment (e.g. an attribute of a docstring's parent object).
+
+    Every operation on it is total in the *engine* but may raise in *Python*: attribute reads fork into AttributeError / another
+    SAny, subscripts into KeyError / IndexError / TypeError / another SAny, truthiness and isinstance into both outcomes.
+    Code is safe on an SAny only if every such exception is handled where it can occur."""
+
+    _n = [0]
+
+    def __init__(self, origin="any", kind=None):
+        SAny._n[0] += 1
+        super().__init__("any")
+        self.origin = origin
+        self.kind = kind   # None | "Parameters" | "Parameter": the only typed refinements (griffe containers read from a parent)
+        self.uid = SAny._n[0]
+        self.memo = {}
+
+    def __repr__(self):
+        return f"SAny({self.origin})"
+
+
 class BoundMethod:
     def __init__(self, self_obj, func):
         self.self_obj, self.func = self_obj, func
